@@ -457,6 +457,13 @@ package engine
 //@ spec pred sessInv(s *Session) { (s.CurDB != "" ==> s.RelationService != nil) && openStores == (s.RelationService != nil ? 1 : 0) &&
 //@        (s.RelationService != nil ==> openDB == strLower(s.CurDB)) }
 
+// Closing a session closes the store it has open, if any: no flush timer outlives the session.
+//@ func (s *Session) Close() error
+//@   props C17
+//@   requires sessInv(s)
+//@   modifies storeState, ioFailed, openStores
+//@   ensures[closed; C17] openStores == 0
+
 //@ func (s *Session) ExecQuery(q string) error
 //@   props C17 C18 C13 C14
 //@   requires txn == 0 && sessInv(s)
